@@ -5,18 +5,89 @@
   has a list) emit identical bytes.
 -/
 import Acpi.Props.C11
+import Acpi.Lemmas.ProcFlags
 namespace Acpi.C11
 open Acpi Spec
 
-/-- PPTT processor node: the five flags in any order and repetition, interleaved with the same
-    sequence of `add_cache` calls -/
-theorem proc_order_irrelevant (c : EArgs) (opts opts' : List Opt) (a a' : EArgs)
-    (hs : ∀ nm, has opts nm = has opts' nm) (hp : pushed opts "cache" = pushed opts' "cache")
+/-- PPTT processor node, in general (direct field writes included): two programs with the same
+    flags value (`procFlags`: last direct write of the field OR-ed with the flag builders invoked
+    after it), the same last value written to the parent and processor-id fields, and the same
+    sequence of `add_cache` calls emit identical bytes -/
+theorem proc_same_fields_same_bytes (c : EArgs) (opts opts' : List Opt) (a a' : EArgs)
+    (hf : procFlags opts = procFlags opts')
+    (hpar : lastSet opts 1 (c.num 0) = lastSet opts' 1 (c.num 0))
+    (hid : lastSet opts 2 (c.num 1) = lastSet opts' 2 (c.num 1))
+    (hp : pushed opts "cache" = pushed opts' "cache")
     (hwf : entryWf .proc c opts = true) (hwf' : entryWf .proc c opts' = true)
     (h : buildEntry .proc c opts = .ok a) (h' : buildEntry .proc c opts' = .ok a') :
     entryBytes .proc a = entryBytes .proc a' :=
   same_rows_same_bytes .proc c opts opts' a a' (by decide) (by intro h; cases h) hwf hwf' h h'
-    (by simp [rows, bit, hs, hp])
+    (by simp only [rows, hf, hpar, hid, hp])
+
+/-- PPTT processor node: the five flags in any order and repetition, interleaved with the same
+    sequence of `add_cache` calls — for programs that do not write the flags field directly
+    (`noFlagsWrite`) and agree on the last value written to the parent / processor-id fields.
+    (With a direct write of the flags field the order of the flag builders relative to it
+    matters: `proc_order_relevant_with_flags_write`.) -/
+theorem proc_order_irrelevant (c : EArgs) (opts opts' : List Opt) (a a' : EArgs)
+    (hs : ∀ nm, has opts nm = has opts' nm) (hp : pushed opts "cache" = pushed opts' "cache")
+    (hnw : noFlagsWrite opts = true) (hnw' : noFlagsWrite opts' = true)
+    (hpar : lastSet opts 1 (c.num 0) = lastSet opts' 1 (c.num 0))
+    (hid : lastSet opts 2 (c.num 1) = lastSet opts' 2 (c.num 1))
+    (hwf : entryWf .proc c opts = true) (hwf' : entryWf .proc c opts' = true)
+    (h : buildEntry .proc c opts = .ok a) (h' : buildEntry .proc c opts' = .ok a') :
+    entryBytes .proc a = entryBytes .proc a' :=
+  proc_same_fields_same_bytes c opts opts' a a' (ProcF.procFlags_congr opts opts' hs hnw hnw') hpar hid hp
+    hwf hwf' h h'
+
+/-- … in particular the statement as it was before direct writes were modelled, for programs
+    without any direct write (`set=` does not occur): same set of options and same sequence of
+    `add_cache` calls give identical bytes -/
+theorem proc_order_irrelevant_no_writes (c : EArgs) (opts opts' : List Opt) (a a' : EArgs)
+    (hs : ∀ nm, has opts nm = has opts' nm) (hp : pushed opts "cache" = pushed opts' "cache")
+    (hns : has opts "set" = false)
+    (hwf : entryWf .proc c opts = true) (hwf' : entryWf .proc c opts' = true)
+    (h : buildEntry .proc c opts = .ok a) (h' : buildEntry .proc c opts' = .ok a') :
+    entryBytes .proc a = entryBytes .proc a' := by
+  have hns' : has opts' "set" = false := by rw [← hs]; exact hns
+  refine proc_order_irrelevant c opts opts' a a' hs hp (ProcF.noFlagsWrite_of_not_has_set _ hns)
+    (ProcF.noFlagsWrite_of_not_has_set _ hns') ?_ ?_ hwf hwf' h h'
+  · rw [ProcF.lastSet_of_not_has_set _ hns, ProcF.lastSet_of_not_has_set _ hns']
+  · rw [ProcF.lastSet_of_not_has_set _ hns, ProcF.lastSet_of_not_has_set _ hns']
+
+/-- the statement of `proc_order_irrelevant` without `noFlagsWrite` (even with *every* slot's
+    last written value agreeing) … -/
+def proc_order_irrelevant_unguarded : Prop :=
+  ∀ (c : EArgs) (opts opts' : List Opt) (a a' : EArgs),
+    (∀ nm, has opts nm = has opts' nm) → pushed opts "cache" = pushed opts' "cache" →
+    (∀ j d, lastSet opts j d = lastSet opts' j d) →
+    entryWf .proc c opts = true → entryWf .proc c opts' = true →
+    buildEntry .proc c opts = .ok a → buildEntry .proc c opts' = .ok a' →
+    entryBytes .proc a = entryBytes .proc a'
+
+/-- … is false: `flags = 0; physical()` leaves the flags at 1, `physical(); flags = 0` at 0 — the
+    same set of calls, the same last written values, different bytes -/
+theorem proc_order_relevant_with_flags_write : ¬ proc_order_irrelevant_unguarded := by
+  intro H
+  have hs : ∀ nm, has [⟨"set", [0, 0]⟩, ⟨"physical", []⟩] nm = has [⟨"physical", []⟩, ⟨"set", [0, 0]⟩] nm := by
+    intro nm; simp [has, Bool.or_comm]
+  have hl : ∀ j d, lastSet [⟨"set", [0, 0]⟩, ⟨"physical", []⟩] j d = lastSet [⟨"physical", []⟩, ⟨"set", [0, 0]⟩] j d := by
+    intro j d; simp [lastSet, List.filter]
+  have := H {} [⟨"set", [0, 0]⟩, ⟨"physical", []⟩] [⟨"physical", []⟩, ⟨"set", [0, 0]⟩] _ _ hs (by decide)
+    hl (by decide) (by decide) rfl rfl
+  revert this
+  decide
+
+/-- non-vacuity of `proc_order_irrelevant`: the flag builders permuted and repeated around the same
+    `add_cache` call and a direct write of the parent field -/
+example :
+    let p : List Opt := [⟨"physical", []⟩, ⟨"set", [1, 9]⟩, ⟨"cache", [40]⟩, ⟨"leaf", []⟩, ⟨"physical", []⟩]
+    let p' : List Opt := [⟨"leaf", []⟩, ⟨"cache", [40]⟩, ⟨"physical", []⟩, ⟨"set", [1, 9]⟩]
+    pushed p "cache" = pushed p' "cache" ∧ noFlagsWrite p = true ∧ noFlagsWrite p' = true ∧
+    lastSet p 1 0 = lastSet p' 1 0 ∧ lastSet p 2 0 = lastSet p' 2 0 ∧
+    entryWf .proc {} p = true ∧ entryWf .proc {} p' = true ∧
+    (∃ a, buildEntry .proc {} p = .ok a) ∧ (∃ a, buildEntry .proc {} p' = .ok a) :=
+  ⟨by decide, by decide, by decide, by decide, by decide, by decide, by decide, ⟨_, rfl⟩, ⟨_, rfl⟩⟩
 
 /-- CXL fixed memory window: the five restriction flags in any order and repetition, with the
     same sequence of interleave targets -/
